@@ -141,9 +141,11 @@ class Policy:
         is_component_method = g.trait_short in ("Next", "Reset") and recv_path is not None and (len(recv_path) > 1 or self.step_self)
         if is_component_method and self.modular:
             return "step"
-        if cfg.has_loop() and not self.inline_loops:
+        if self.F.loopy(g) and not self.inline_loops:
             if g.trait_short in ("Next", "Reset") and recv_path is not None:
                 return "step"
+            if g.self_struct is None and depth < self.inline_depth:
+                return "inline"  # a free function over its arguments (loops are summarised): no receiver state to keep modular
             return "ucall"
         if depth >= self.inline_depth:
             return "ucall"
@@ -310,7 +312,7 @@ class Exec:
         t = blk["term"]
         nm = callees.callee_name(t["callee"]) if t["k"] == "call" else ""
         if t["k"] != "call" or not re.search(r"iter::Iterator>::next$|Iterator for .*>::next$", callees.strip_turbofish(nm)):
-            raise HasLoop("%s: loop at bb%d is not driven by Iterator::next" % (fn.label, h))
+            return self.summarize_counted(fr, st, h)
         for s_ in blk["stmts"]:
             if s_["k"] == "assign":
                 self.write_place(fr, st, s_["place"], self.rvalue(fr, st, s_["rv"]))
@@ -322,32 +324,127 @@ class Exec:
                 return parts(v[1]) + parts(v[2])
             return [v]
         for part in parts(itv):
-            self._summarize_one(fr, st, h, t, it, part)
+            self.nloop += 1
+            loopid = self.nloop
+            item = self.iter_item(st, part, loopid)
+            if item is None:
+                raise HasLoop("%s: iterator of the loop at bb%d is not a recognised Range / slice iterator (%s)" % (fn.label, h, show(part)[:80]))
+            some = ("adt", "Option", (1, "Some"), (("0", item),), True)
+            # the iterator variable itself is consumed by the loop
+            itpath = it[1] if isinstance(it, tuple) and it[0] == "ref" else None
+            self._summarize_one(fr, st, h, loopid, item, itpath, t["target"], lambda state, some=some: self.write_place(fr, state, t["dest"], some))
         self.write_place(fr, st, t["dest"], ("adt", "Option", (0, "None"), (), True))
         return st, t["target"]
 
-    def _summarize_one(self, fr, st, h, t, it, itv):
+    def summarize_counted(self, fr, st, h):
+        """`while i < bound { ..; i += 1 }` with a loop-invariant bound: treated as `for i in start..bound`"""
         fn = fr.fn
+
+        def header(state):
+            """execute the straight-line header (statements, non-panicking std calls) up to the loop test; returns its switch"""
+            b = h
+            for _ in range(6):
+                blk_ = fn.block_by_id[b]
+                for si_, s_ in enumerate(blk_["stmts"]):
+                    if s_["k"] == "assign":
+                        self.cur_site = (fn, b, s_["span"], si_)
+                        self.write_place(fr, state, s_["place"], self.rvalue(fr, state, s_["rv"]))
+                t_ = blk_["term"]
+                if t_["k"] == "switch":
+                    return t_
+                if t_["k"] == "goto":
+                    b = t_["target"]
+                elif t_["k"] == "call" and t_["target"] is not None and callees.classify(t_["callee"], self.F.d["crate"])[0] == "pure":
+                    self.call(fr, state, t_)
+                    b = t_["target"]
+                else:
+                    break
+            raise HasLoop("%s: loop at bb%d is not driven by Iterator::next and has no simple `i < bound` test" % (fn.label, h))
+        probe = st.fork()
+        t = header(probe)
+        d = simp(self.operand(fr, probe, t["discr"]), probe.facts)
+        a, pol = lit(d) if isinstance(d, tuple) and d[0] in CMP + ("not",) else (None, True)
+        if not (a is not None and a[0] == "<" and pol and t["discr_ty"] == "bool"):
+            raise HasLoop("%s: loop at bb%d is not driven by Iterator::next and its condition is not `i < bound`" % (fn.label, h))
+        start, bound = a[1], a[2]
+        # the induction variable: follow the left operand of the test back through the header's copies
+        defs = {}
+        b_ = h
+        for _ in range(6):
+            blk_ = fn.block_by_id[b_]
+            for s_ in blk_["stmts"]:
+                if s_["k"] == "assign" and not s_["place"]["proj"]:
+                    defs[s_["place"]["local"]] = s_["rv"]
+            if blk_["term"]["k"] == "switch":
+                break
+            b_ = blk_["term"].get("target")
+            if b_ is None:
+                break
+        loc_ = t["discr"]["place"]["local"] if t["discr"]["k"] in ("copy", "move") and not t["discr"]["place"]["proj"] else None
+        rv_ = defs.get(loc_)
+        ivl = None
+        if rv_ and rv_["k"] == "binop" and rv_["op"] in ("Lt", "Gt"):
+            o_ = rv_["a"] if rv_["op"] == "Lt" else rv_["b"]
+            while o_["k"] in ("copy", "move") and not o_["place"]["proj"]:
+                ivl = o_["place"]["local"]
+                nxt = defs.get(ivl)
+                if nxt and nxt["k"] == "use":
+                    o_ = nxt["op"]
+                else:
+                    break
+        ipath = (("L", fr.id, ivl),) if ivl is not None else None
+        if ipath is None or self._try_read(st, ipath) != start:
+            raise HasLoop("%s: loop at bb%d: no induction variable found for the condition %s" % (fn.label, h, show(d)[:60]))
+        body_blk = [int(tgt) for v, tgt in t["targets"] if int(v) == 0]
+        exit_blk, enter_blk = (body_blk[0], t["otherwise"]) if body_blk else (None, None)
+        if exit_blk is None:
+            raise HasLoop("%s: loop at bb%d: unrecognised switch shape" % (fn.label, h))
         self.nloop += 1
         loopid = self.nloop
-        item = self.iter_item(st, itv, loopid)
-        if item is None:
-            raise HasLoop("%s: iterator of the loop at bb%d is not a recognised Range / slice iterator (%s)" % (fn.label, h, show(itv)[:80]))
-        some = ("adt", "Option", (1, "Some"), (("0", item),), True)
-        # the iterator variable itself is consumed by the loop
-        itpath = it[1] if isinstance(it, tuple) and it[0] == "ref" else None
+        iv = ("ivar", loopid)
+        self.ivar_bounds[iv] = {"start": start, "end": bound, "array": None}
+
+        def enter(state):
+            state.store.write(ipath, iv)
+            header(state)
+            self.add_fact(state, ("<", iv, bound), True)
+
+        def check(out):
+            if self._try_read(out, ipath) != ("+", iv, cu(1)):
+                raise HasLoop("%s: loop at bb%d: the induction variable is not advanced by exactly 1 per iteration" % (fn.label, h))
+            from terms import subterms
+            o2 = out.fork()
+            saved = list(self.sites)
+            t2 = header(o2)
+            self.sites = saved
+            d2 = simp(self.operand(fr, o2, t2["discr"]), {})
+            a2, p2 = lit(d2) if isinstance(d2, tuple) and d2[0] in CMP + ("not",) else (None, True)
+            if any(x == iv for x in subterms(bound)) or a2 is None or not p2 or a2[0] != "<" or a2[2] != bound or a2[1] != ("+", iv, cu(1)):
+                raise HasLoop("%s: loop at bb%d: the bound changes inside the loop" % (fn.label, h))
+        self._summarize_one(fr, st, h, loopid, iv, ipath, enter_blk, enter, check)
+        if self._try_read(st, ipath) is not None:
+            pass
+        # after the loop: i = bound when start <= bound (start is 0 in the recognised idiom), else i = start
+        st.store.write(ipath, bound if start == cu(0) else mk_gamma(("<", start, bound), bound, start))
+        header(st)
+        return st, exit_blk
+
+    def _summarize_one(self, fr, st, h, loopid, item, itpath, start_block, enter, check=None):
+        fn = fr.fn
 
         def body(state):
-            self.write_place(fr, state, t["dest"], some)
+            enter(state)
             self.active_loops.add((fr.id, h))
             try:
-                out = self.run(fr, t["target"], state, h)
+                out = self.run(fr, start_block, state, h)
             finally:
                 self.active_loops.discard((fr.id, h))
             if out is None or getattr(out, "returned", False):
                 raise HasLoop("%s: loop body at bb%d leaves the loop irregularly" % (fn.label, h))
             if out.steps != state_steps[0]:
                 raise HasLoop("%s: loop at bb%d calls a component" % (fn.label, h))
+            if check is not None:
+                check(out)
             return out
 
         state_steps = [st.steps]
@@ -1194,6 +1291,8 @@ class Exec:
         if re.search(r"iter::Iterator>::enumerate$|iter::Iterator::enumerate$", callees.strip_turbofish(n)):
             return ("enumerate", args[0])
         nn = callees.strip_turbofish(n)
+        if re.search(r"<impl \[[^\]]*\]>::len$", nn) and isinstance(args[0], tuple) and args[0][0] == "ref" and args[0][2] is None:
+            return self.length(self.read_path(st, args[0][1]))
         if re.search(r"<impl \[[^\]]*\]>::iter_mut$", nn) and isinstance(args[0], tuple) and args[0][0] == "ref" and args[0][2] is None:
             arr = self.read_path(st, args[0][1])
             return ("sliceiter", args[0][1], cu(0), self.length(arr))
